@@ -1,0 +1,117 @@
+//go:build verif
+
+package http2
+
+// Exported shims for the verification harness (/verif). Built only with
+// -tags verif; nothing here changes the behaviour of the package.
+
+// VerifHuffmanTables returns the Huffman code and length tables.
+func VerifHuffmanTables() ([256]uint32, [256]uint8) {
+	return huffmanCodes, huffmanCodeLen
+}
+
+// VerifStaticTable returns the HPACK static table as key/value pairs.
+func VerifStaticTable() (out [][2][]byte) {
+	for _, hf := range staticTable {
+		out = append(out, [2][]byte{hf.key, hf.value})
+	}
+	return out
+}
+
+// VerifConsts returns the named numeric constants the models depend on.
+func VerifConsts() map[string]int64 {
+	return map[string]int64{
+		"maxIndex":                 int64(maxIndex),
+		"DefaultFrameSize":         int64(DefaultFrameSize),
+		"defaultMaxLen":            int64(defaultMaxLen),
+		"defaultHeaderTableSize":   int64(defaultHeaderTableSize),
+		"defaultConcurrentStreams": int64(defaultConcurrentStreams),
+		"defaultWindowSize":        int64(defaultWindowSize),
+		"defaultDataFrameSize":     int64(defaultDataFrameSize),
+		"maxFrameSize":             int64(maxFrameSize),
+		"FlagAck":                  int64(FlagAck),
+		"FlagEndStream":            int64(FlagEndStream),
+		"FlagEndHeaders":           int64(FlagEndHeaders),
+		"FlagPadded":               int64(FlagPadded),
+		"FlagPriority":             int64(FlagPriority),
+		"FrameData":                int64(FrameData),
+		"FrameHeaders":             int64(FrameHeaders),
+		"FramePriority":            int64(FramePriority),
+		"FrameResetStream":         int64(FrameResetStream),
+		"FrameSettings":            int64(FrameSettings),
+		"FramePushPromise":         int64(FramePushPromise),
+		"FramePing":                int64(FramePing),
+		"FrameGoAway":              int64(FrameGoAway),
+		"FrameWindowUpdate":        int64(FrameWindowUpdate),
+		"FrameContinuation":        int64(FrameContinuation),
+		"HeaderTableSize":          int64(HeaderTableSize),
+		"EnablePush":               int64(EnablePush),
+		"MaxConcurrentStreams":     int64(MaxConcurrentStreams),
+		"MaxWindowSize":            int64(MaxWindowSize),
+		"MaxFrameSize":             int64(MaxFrameSize),
+		"MaxHeaderListSize":        int64(MaxHeaderListSize),
+		"NoError":                  int64(NoError),
+		"ProtocolError":            int64(ProtocolError),
+		"InternalError":            int64(InternalError),
+		"FlowControlError":         int64(FlowControlError),
+		"SettingsTimeoutError":     int64(SettingsTimeoutError),
+		"StreamClosedError":        int64(StreamClosedError),
+		"FrameSizeError":           int64(FrameSizeError),
+		"RefusedStreamError":       int64(RefusedStreamError),
+		"StreamCanceled":           int64(StreamCanceled),
+		"CompressionError":         int64(CompressionError),
+		"ConnectionError":          int64(ConnectionError),
+		"EnhanceYourCalm":          int64(EnhanceYourCalm),
+		"InadequateSecurity":       int64(InadequateSecurity),
+		"HTTP11Required":           int64(HTTP11Required),
+	}
+}
+
+// VerifReadInt exposes readInt.
+func VerifReadInt(n int, b []byte) ([]byte, uint64, error) { return readInt(n, b) }
+
+// VerifAppendInt exposes appendInt.
+func VerifAppendInt(dst []byte, bits uint8, index uint64) []byte {
+	return appendInt(dst, bits, index)
+}
+
+// VerifReadString exposes readString.
+func VerifReadString(dst, b []byte) ([]byte, []byte, error) { return readString(dst, b) }
+
+// VerifAppendString exposes appendString.
+func VerifAppendString(dst, src []byte, encode bool) []byte {
+	return appendString(dst, src, encode)
+}
+
+// VerifNextField exposes nextField.
+func (hp *HPACK) VerifNextField(hf *HeaderField, blockStart bool, fieldsProcessed int, b []byte) ([]byte, error) {
+	return hp.nextField(hf, blockStart, fieldsProcessed, b)
+}
+
+// VerifDynamic returns a copy of the dynamic table, oldest entry first
+// (the order of hp.dynamic), with the two size fields and the pending flag.
+func (hp *HPACK) VerifDynamic() (entries [][2][]byte, sens []bool, maxTableSize, maxTableSizeSettings uint32, pending bool) {
+	for _, hf := range hp.dynamic {
+		entries = append(entries, [2][]byte{append([]byte(nil), hf.key...), append([]byte(nil), hf.value...)})
+		sens = append(sens, hf.sensible)
+	}
+	return entries, sens, hp.maxTableSize, hp.maxTableSizeSettings, hp.pendingSizeUpdate
+}
+
+// VerifSetSensible sets the sensitivity flag of a header field.
+func (hf *HeaderField) VerifSetSensible(v bool) { hf.sensible = v }
+
+// VerifParseUint exposes parseUint.
+func VerifParseUint(b []byte) (int, error) { return parseUint(b) }
+
+// VerifHasUpperCase exposes hasUpperCase.
+func VerifHasUpperCase(b []byte) bool { return hasUpperCase(b) }
+
+// VerifIsConnectionSpecific exposes isConnectionSpecific.
+func VerifIsConnectionSpecific(b []byte) bool { return isConnectionSpecific(b) }
+
+// VerifPayload returns the raw payload held by the frame header.
+func (f *FrameHeader) VerifPayload() []byte { return f.payload }
+
+// VerifSetMaxLen sets the receive limit used by ReadFrom.
+func (f *FrameHeader) VerifSetMaxLen(n uint32) { f.maxLen = n }
